@@ -318,7 +318,7 @@ func ruleR6(fi *fileInfo) {
 			return nil
 		}
 		switch sel.Sel.Name {
-		case "MkdirAll", "CreateTemp", "Rename", "Remove", "Open":
+		case "MkdirAll", "CreateTemp", "Rename", "Remove", "Open", "WriteFile", "Create", "OpenFile", "Mkdir", "RemoveAll", "Link", "Symlink":
 			n++
 			return &ast.SelectorExpr{X: ast.NewIdent("vfs"), Sel: ast.NewIdent(sel.Sel.Name)}
 		}
